@@ -737,6 +737,9 @@ func main() {
 	//    process state): fresh struct types, 8 workers behind a barrier, each encodes the
 	//    value, decodes the bytes into a new value and re-encodes; nobody may panic and
 	//    everybody gets what a later single-threaded call and the item-level model give
+	// 7. rlp.Stream as a state machine: the walker and arbitrary operation sequences
+	//    against the code-shaped model coq/Rlp/StreamModel.v (stream_ops.go)
+	streamSection(c, m)
 	concurrentFirstUse(c, m)
 	c.Assume("Go reflect and the rlp typecache are exercised only through interface{}/[]byte/[]uint64 targets in this item-level check; typed consensus structures are covered by the typed layer")
 	c.Finish()
